@@ -23,13 +23,14 @@ from sa.engine.universe import AnalysisError  # noqa: E402
 PROPS = [f"C{n:02d}" for n in range(1, 21)]
 
 
-def run(prop: str, tier: str, repo: str) -> int:
+def run(prop: str, tier: str, repo: str, shared: "Ctx | None" = None) -> int:
     report = Report(prop, tier)
     try:
-        ctx = Ctx(repo)
+        ctx = shared if shared is not None else Ctx(repo)
         report.analysed.update(ctx.base_stats())
         mod = importlib.import_module(f"sa.rules.{prop.lower()}")
-        ctx._rule_stack.append(prop.lower())  # pylint: disable=protected-access
+        ctx._rule_stack[:] = [prop.lower()]  # pylint: disable=protected-access
+        ctx._rule_tainted.clear()  # pylint: disable=protected-access
         mod.run(ctx, report)
         if tier == "thorough":
             if hasattr(mod, "thorough"):
@@ -79,10 +80,18 @@ def main() -> int:
     args = parser.parse_args()
     prop = args.prop.upper()
     if prop == "ALL":
+        # every property in one process over one parsed universe; complete sub-analyses shared between properties are
+        # computed once (tools_regress.py / tools_refactor.py use this; the registered commands run one property each)
         worst = 0
+        codes = []
+        shared = Ctx(args.repo)
+        shared.shared_rule_cache = True  # type: ignore[attr-defined]
         for pid in PROPS:
             if os.path.exists(os.path.join(HERE, "rules", f"{pid.lower()}.py")):
-                worst = max(worst, run(pid, args.tier, args.repo))
+                code = run(pid, args.tier, args.repo, shared)
+                codes.append(f"{pid}={code}")
+                worst = max(worst, code)
+        print("RESULT-CODES " + " ".join(codes))
         return worst
     if prop not in PROPS:
         print(f"unknown property {prop}")
